@@ -26,7 +26,7 @@ use crate::prng::Rng;
 use crate::seams;
 
 enum Cmd {
-    Expand(Arc<String>),
+    Expand(Arc<String>, u64),
     Probe,
     Frag(u64, u64),
     Quit,
@@ -101,34 +101,134 @@ fn canary() -> String {
     m.keys().map(|k| k.to_string()).collect::<Vec<_>>().join("")
 }
 
-fn span_fingerprint(ts: proc_macro2::TokenStream, idx: &mut usize, out: &mut String) {
+/// Start positions of every input token (open and close delimiters included), in DFS order.
+fn token_starts(ts: proc_macro2::TokenStream, out: &mut Vec<(usize, usize)>) {
+    for tt in ts {
+        match tt {
+            proc_macro2::TokenTree::Group(g) => {
+                let o = g.span_open().start();
+                out.push((o.line, o.column));
+                token_starts(g.stream(), out);
+                let c = g.span_close().start();
+                out.push((c.line, c.column));
+            },
+            other => {
+                let p = other.span().start();
+                out.push((p.line, p.column));
+            },
+        }
+    }
+}
+
+/// Which input token does each returned token point at? `output index @ input index`, for the
+/// tokens whose span points into the input (generated tokens sit at the call site). Expressed in
+/// token indices, not line:column, so the fingerprint does not change when the same tokens are
+/// presented with different blanks and comments.
+fn span_fingerprint(ts: proc_macro2::TokenStream, file: &str, starts: &[(usize, usize)], idx: &mut usize, out: &mut String) {
     use std::fmt::Write;
     for tt in ts {
-        let sp = tt.span().start();
+        let span = tt.span();
+        let sp = span.start();
         if sp.line != 0 || sp.column != 0 {
-            let _ = write!(out, " {}@{}:{}", *idx, sp.line, sp.column);
+            if span.file() != file {
+                // a token educe obtained by re-parsing a string it had printed: it points into that
+                // string, not into the input
+                let _ = write!(out, " {}@r", *idx);
+            } else {
+                match starts.iter().position(|p| *p == (sp.line, sp.column)) {
+                    Some(k) => {
+                        let _ = write!(out, " {}@{}", *idx, k);
+                    },
+                    None => {
+                        let _ = write!(out, " {}@?", *idx);
+                    },
+                }
+            }
         }
         *idx += 1;
         if let proc_macro2::TokenTree::Group(g) = tt {
-            span_fingerprint(g.stream(), idx, out);
+            span_fingerprint(g.stream(), file, starts, idx, out);
+        }
+    }
+}
+
+/// The same token stream, written with PRNG-chosen blanks, newlines and comments between tokens.
+pub fn render_noisy(ts: proc_macro2::TokenStream, rng: &mut Rng, out: &mut String) {
+    use proc_macro2::{Delimiter, Spacing, TokenTree};
+    let sep = |rng: &mut Rng, out: &mut String| match rng.below(12) {
+        0 => out.push('\n'),
+        1 => out.push_str("  "),
+        2 => out.push_str(" /* x */ "),
+        3 => out.push_str(" // y\n"),
+        4 => out.push_str("\n\n    "),
+        5 => out.push('\t'),
+        _ => out.push(' '),
+    };
+    for tt in ts {
+        match tt {
+            TokenTree::Group(g) => {
+                let (o, c) = match g.delimiter() {
+                    Delimiter::Parenthesis => ("(", ")"),
+                    Delimiter::Brace => ("{", "}"),
+                    Delimiter::Bracket => ("[", "]"),
+                    Delimiter::None => ("", ""),
+                };
+                out.push_str(o);
+                sep(rng, out);
+                render_noisy(g.stream(), rng, out);
+                sep(rng, out);
+                out.push_str(c);
+                sep(rng, out);
+            },
+            TokenTree::Punct(p) => {
+                out.push(p.as_char());
+                // a joint punct must touch the next token (`::`, `->`, `'a`, `..=`)
+                if p.spacing() == Spacing::Alone {
+                    sep(rng, out);
+                }
+            },
+            other => {
+                out.push_str(&other.to_string());
+                sep(rng, out);
+            },
         }
     }
 }
 
 /// The one place where code under test runs.
 pub fn expand_once(text: &str) -> String {
+    expand_fmt(text, 0)
+}
+
+pub fn expand_fmt(text: &str, fmt: u64) -> String {
     let r = std::panic::catch_unwind(|| {
+        let presented: String;
+        let text = if fmt == 0 {
+            text
+        } else {
+            match text.parse::<proc_macro2::TokenStream>() {
+                Ok(ts) => {
+                    let mut s = String::new();
+                    render_noisy(ts, &mut Rng::new(fmt), &mut s);
+                    presented = s;
+                    &presented
+                },
+                Err(e) => return format!("LEXERR:{e}"),
+            }
+        };
         let ts: proc_macro2::TokenStream = match text.parse() {
             Ok(ts) => ts,
             Err(e) => return format!("LEXERR:{e}"),
         };
+        let mut starts = vec![];
+        token_starts(ts.clone(), &mut starts);
+        let file = ts.clone().into_iter().next().map(|t| t.span().file()).unwrap_or_default();
         let out = educe::educe_derive_verif(ts);
         let mut text = out.to_string();
-        // spans of the returned tokens that point into the input (generated tokens sit at the call
-        // site, 0:0): token index @ line:column. Part of the outcome: a token stream is text + spans.
+        // a token stream is text + spans
         let mut spans = String::new();
         let mut idx = 0usize;
-        span_fingerprint(out, &mut idx, &mut spans);
+        span_fingerprint(out, &file, &starts, &mut idx, &mut spans);
         if !spans.is_empty() {
             text.push_str("\n// spans:");
             text.push_str(&spans);
@@ -167,9 +267,9 @@ fn worker_main(slot: Arc<Slot>) {
     let mut live: Vec<Vec<u8>> = Vec::new();
     loop {
         match slot.take() {
-            Cmd::Expand(text) => {
+            Cmd::Expand(text, fmt) => {
                 let fp = keyfp();
-                let mut out = expand_once(&text);
+                let mut out = expand_fmt(&text, fmt);
                 drop(text);
                 let head = format!("R {fp:016x} {}\n", out.len());
                 out.push('\n');
@@ -339,14 +439,15 @@ pub fn host_main() -> i32 {
                     say("err no such worker\n");
                 }
             },
-            "X" if parts.len() == 3 => {
+            "X" if parts.len() == 4 => {
                 let id: u64 = parts[1].parse().unwrap_or(0);
                 let iid: u64 = parts[2].parse().unwrap_or(0);
+                let fmt: u64 = parts[3].parse().unwrap_or(0);
                 let (Some(wk), Some(text)) = (workers.get(&id), inputs.get(&iid)) else {
                     say("err no such worker or input\n");
                     continue;
                 };
-                wk.slot.call(Cmd::Expand(text.clone()));
+                wk.slot.call(Cmd::Expand(text.clone(), fmt));
             },
             "C" if parts.len() == 3 => {
                 seams::SIM_CLOCK_S.store(parts[1].parse().unwrap_or(0), Ordering::SeqCst);
